@@ -15,6 +15,13 @@ to itself / to its own package (then a rename changes AND moves it), user module
 outside the project refer to them (changed only), untouched members of a renamed package are
 moved only.  References are spelled in the four import forms.
 
+Path-less buffers: every world also carries `buffers`, texts of unsaved editor buffers
+(`Script(code, path=None, project=...)`) that refer to the entity in the four import forms - a fresh
+text, or the unsaved copy of a user module that is on disk as well.  A rename asked from such a
+buffer on the name of a module / package / namespace package carries file renames although the
+changed buffer itself has no path; the files on disk that refer to the entity are changed too
+(path-less + other changed files) or nobody else refers to the renamed module (path-less alone).
+
 Nothing here imports jedi; parso is used only to enumerate name positions.
 """
 import itertools
@@ -145,6 +152,24 @@ def make_world(rng, project, kind, where, selfref, sysmode, name=None, plain=Fal
         if plain or rng.random() < 0.7:
             text += eol
         files[m.path] = text
+    # unsaved buffers (no path): drawn after everything else of the world
+    buffers = []
+    for b in range(2):
+        buf = Mod('buffer%d' % b, None, 'bv', 11 + b)
+        # the second buffer refers to one module only: often one that nobody else refers to
+        buf.refs = rng.sample(entity, rng.randint(1, min(3, len(entity)))) if b == 0 else [rng.choice(entity)]
+        if decoy is not None and rng.random() < 0.3:
+            buf.refs.append(decoy)
+        eol = '\n' if plain else rng.choice(EOLS)
+        imports, uses = [], []
+        for k, t in enumerate(buf.refs):
+            i, us = _ref_lines(rng, k, t)
+            imports += i
+            uses += us
+        lines = imports + (['', '# unsaved'] if rng.random() < 0.3 else []) + ['%s = %d' % (buf.attr, buf.value)] + uses
+        buffers.append(eol.join(lines) + (eol if rng.random() < 0.7 else ''))
+    # the unsaved copy of a user module that is on disk too
+    buffers.append(files[rng.choice(users).path])
     used = sorted({roots['in']} | {_root_of(m.path, roots) for m in everything})
     used = [roots['in']] + [r for r in used if r != roots['in']]
     if sysmode == 'added':
@@ -152,7 +177,7 @@ def make_world(rng, project, kind, where, selfref, sysmode, name=None, plain=Fal
     else:
         sys_path, added = used, []
     return dict(files=files, project=project, sys_path=sys_path, added_sys_path=added,
-                entity=[m.path for m in entity], users=[u.path for u in users],
+                entity=[m.path for m in entity], users=[u.path for u in users], buffers=buffers,
                 params=dict(project=project, kind=kind, where=where, selfref=selfref, sysmode=sysmode),
                 names=sorted({c for m in everything for c in m.dotted.split('.')}
                              | {m.attr for m in everything}))
@@ -182,13 +207,18 @@ def name_positions(text):
     return out
 
 
-def requests_for(rng, world, per_world, exhaustive=False, collide=0.1):
+def requests_for(rng, world, per_world, exhaustive=False, collide=0.1, buffers=False):
     """rename requests on a world: positions of names in import statements and uses, in the entity's
     own modules (self references), the users inside and outside the project; a fraction `collide` of
-    the new names is the name of something that exists"""
+    the new names is the name of something that exists.  buffers=True: the same for the world's
+    path-less buffers (`file` is None, `code` is the buffer's text)."""
     cands = []
-    for path in world['entity'] + world['users']:
-        pos = name_positions(world['files'][path])
+    sources = [(None, t) for t in world['buffers']] if buffers else \
+        [(p, world['files'][p]) for p in world['entity'] + world['users']]
+    for bi, (path, text) in enumerate(sources):
+        pos = name_positions(text)
+        if path is None:
+            path = bi           # the index of the buffer
         seen = set()
         for line, col, value, imp in pos:
             if value.startswith(('r', 'al')) and value[1:].lstrip('l').isdigit():
@@ -204,7 +234,7 @@ def requests_for(rng, world, per_world, exhaustive=False, collide=0.1):
         pick = cands
     else:
         # prefer names of modules / packages (they move files), asked from the entity's own modules
-        own = [c for c in cands if c[0] in world['entity'] and c[4]]
+        own = [c for c in cands if (buffers or c[0] in world['entity']) and c[4]]
         imp = [c for c in cands if c[4]]
         pick = []
         for _ in range(per_world):
@@ -219,5 +249,9 @@ def requests_for(rng, world, per_world, exhaustive=False, collide=0.1):
     for path, line, col, value, _imp in pick:
         clash = [t for t in taken if t != value]
         new = rng.choice(clash) if clash and rng.random() < collide else rng.choice(fresh)
-        out.append({'kind': 'rename', 'file': path, 'line': line, 'column': col, 'new_name': new})
+        if buffers:
+            out.append({'kind': 'rename', 'file': None, 'code': world['buffers'][path], 'line': line,
+                        'column': col, 'new_name': new})
+        else:
+            out.append({'kind': 'rename', 'file': path, 'line': line, 'column': col, 'new_name': new})
     return out
